@@ -248,6 +248,26 @@ fn run(tier: Tier, seed: u64, workers: usize) -> COut {
                         1 => h.push(d2[cut..].to_vec()),
                         _ => h.push(d1.clone()),
                     }
+                    // a datagram that carries a complete PDU followed by a truncated second one (a
+                    // sender that packs several PDUs into one datagram), after a longer datagram:
+                    // whatever comes back must still be decoded from each datagram's own bytes
+                    if pi == 1 && cut % 4 == 1 {
+                        let packed = [d2.as_slice(), &d2[..cut]].concat();
+                        if packed.len() <= d1.len() {
+                            let h2 = vec![d1.clone(), packed, d2.clone()];
+                            hist += 1;
+                            sent += 3;
+                            match play(&h2) {
+                                Ok(Some(v)) => o.viol(v),
+                                Ok(None) => {}
+                                Err(e) => {
+                                    o.harness_errors.push(e);
+                                    return o;
+                                }
+                            }
+                            o.note_distinct(&(j, *k, cut, 2usize));
+                        }
+                    }
                     hist += 1;
                     sent += h.len() as u64;
                     match play(&h) {
